@@ -656,14 +656,18 @@ Record Qinv (k : rctx) (NN : gset string) (L : list xinst) (P : list (string * d
   q_dom : pinsL L ∪ netsL L ⊆ dom g;
   q_nn : pinsL L ## NN;
   q_tie : pinsL L ## ties k;
-  q_nets : netsL L ⊆ list_to_set P.*1 }.
+  q_nets : netsL L ⊆ list_to_set P.*1;
+  (* no node reads an input pin of an instance read so far *)
+  q_noread : ∀ y j, g !! y = Some j → ∀ (x : xinst) p, x ∈ L → p ∈ bb_in x.1.2 → pin x.1.1 p ∉ n_fi j }.
 Lemma Qinv_chg k NN L P P' g g' : Qinv k NN L P g → chg (pinsL L) (netsL L) g g' → (∀ x, x ∈ P.*1 → x ∈ P'.*1) → Qinv k NN L P' g'.
 Proof.
-  intros [Qo Qt Qd Qn Qi Qs] Hc HP. split; try done.
+  intros [Qo Qt Qd Qn Qi Qs Qr] Hc HP. split; try done.
   - apply Forall_forall. intros x Hx. rewrite Forall_forall in Qo. eapply bb_ok_chg; [exact Hc|by apply xpins_sub|by apply xnets_sub|by apply Qo].
   - by eapply pinty_chg.
   - intros x Hx. destruct Hc as [A _]. specialize (Qd x Hx). apply elem_of_dom in Qd as [i Hi]. apply elem_of_dom. exists i. by rewrite A.
   - intros x Hx. apply Qs in Hx. apply elem_of_list_to_set in Hx. apply elem_of_list_to_set. by apply HP.
+  - intros y j Hy x p Hx Hp Hin. destruct Hc as [_ B]. destruct (B y j Hy) as [Hold|Hdisj]; [by eapply (Qr y j Hold x p)|]. apply (Hdisj _ Hin).
+    apply (xpins_sub x L Hx). unfold xpins. apply elem_of_map. exists p. split; [done|]. by apply elem_of_union_l.
 Qed.
 
 Lemma bind_nodup_inj {A} (f : A → list string) (l : list A) x y z : NoDup (l ≫= f) → x ∈ l → y ∈ l → z ∈ f x → z ∈ f y → x = y.
@@ -696,7 +700,7 @@ Section bbq.
       inversion HG as [|? ? Hg HG']; subst. inversion HN as [|? ? (ps2 & Eps2 & Hndps) HN']; subst. rewrite Eps in Eps2. injection Eps2 as <-.
       apply rbind_ok in H as (gb1 & H1 & H2).
       cbn [mbind list_bind] in Hnd |- *. fold (mbind (M:=list) (bb_defs d)) in Hnd |- *. fold (mbind (M:=list) (xof d)).
-      pose proof Hi as [G T X U Eq N]. pose proof HQ as [Qo Qt Qd Qn Qi Qs].
+      pose proof Hi as [G T X U Eq N]. pose proof HQ as [Qo Qt Qd Qn Qi Qs Qr].
       pose proof Hg as (ps3 & Eps3 & Hgp & Hpin). rewrite Eps in Eps3. injection Eps3 as <-.
       assert (Hnp : ∀ w, w ∈ bb_defs d ic → w ∉ P.*1).
       { intros w Hw Hp. apply NoDup_app in Hnd as (_ & Hd & _). apply (Hd _ Hp). apply elem_of_app. by left. }
@@ -735,7 +739,7 @@ Section bbq.
       assert (HQ1 : Qinv k NN (L ++ [x]) (P ++ (dummy <$> bb_defs d ic)) gb1.1).
       { assert (HQc : Qinv k NN L (P ++ (dummy <$> bb_defs d ic)) gb1.1).
         { eapply Qinv_chg; [exact HQ|exact Hc|]. intros y Hy. rewrite fmap_app. apply elem_of_app. by left. }
-        destruct HQc as [Qo' Qt' Qd' Qn' Qi' Qs'].
+        destruct HQc as [Qo' Qt' Qd' Qn' Qi' Qs' Qr'].
         assert (Hxp : ∀ y, y ∈ xpins x → ∃ p, p ∈ bb_in d ∪ bb_out d ∧ y = pin ic.1 p).
         { intros y Hy. unfold xpins, x in Hy. simpl in Hy. apply elem_of_map in Hy as (p & -> & Hp). eauto. }
         split.
@@ -764,7 +768,15 @@ Section bbq.
         - rewrite pinsL_app, pinsL_single. intros y [Hy|Hy]%elem_of_union; [by apply Qi'|]. destruct (Hxp y Hy) as (p & Hp & ->). intros Ht.
           apply (Bf p Hp). destruct G as (_ & Hti & _). by apply Hti.
         - rewrite netsL_app, netsL_single. intros y [Hy|Hy]%elem_of_union; [by apply Qs'|]. unfold xnets, x in Hy. simpl in Hy. rewrite Hbd in Hy.
-          apply elem_of_list_to_set in Hy. apply elem_of_list_to_set. rewrite fmap_app, dummy_fst. apply elem_of_app. by right. }
+          apply elem_of_list_to_set in Hy. apply elem_of_list_to_set. rewrite fmap_app, dummy_fst. apply elem_of_app. by right.
+        - intros y j Hy x' p Hx' Hp Hin. apply elem_of_app in Hx' as [Hx'|Hx']; [by eapply (Qr' y j Hy x' p)|]. apply elem_of_list_singleton in Hx' as ->. unfold x in Hp, Hin. simpl in Hp, Hin.
+          destruct (Bnew y j Hy) as [Hold|[->|[(q & Hq & ->)|(kv0 & Hkv0 & Hni0 & ->)]]].
+          + apply (Bf p (elem_of_union_l _ _ _ Hp)). destruct G as (Hcl & _). by eapply Hcl.
+          + by apply elem_of_empty in Hin.
+          + apply elem_of_union in Hq as [Hq|Hq].
+            * rewrite (Bi q Hq) in Hy. injection Hy as <-. simpl in Hin. apply in_fi_elem in Hin. destruct (Bv _ Hin) as [_ Hne]. apply (Hne p); [by apply elem_of_union_l|done].
+            * rewrite (Bo q Hq) in Hy. injection Hy as <-. by apply elem_of_empty in Hin.
+          + rewrite (Bn kv0 Hkv0 Hni0) in Hy. injection Hy as <-. simpl in Hin. apply elem_of_singleton in Hin. apply pin_inj' in Hin as ->. done. }
       assert (Hi1 : rinv k NN (P ++ (dummy <$> bb_defs d ic)) gb1.1 ge).
       { pose proof (bbs_rinv k NN Htr HNN d [(ic.1, CNamed conns)] [ic] gb gb1 ge P) as Hp. simpl in Hp. rewrite app_nil_r in Hp.
         apply Hp; [by rewrite H1|done|by constructor|by constructor|].
@@ -913,7 +925,7 @@ Section itempins.
     item_den_ok2 k NN DD it → item_pin_ok it → NoDup (P.*1 ++ (xitem_drivers (k_bbs k) it).*1) → (list_to_set P.*1 : gset string) ⊆ DD →
     Qinv k NN (L ++ xit it) (P ++ xitem_drivers (k_bbs k) it) (r_g st').
   Proof.
-    intros H Hi HQ Hok Hpk Hnd HDD. pose proof Hi as [G T X U Eq N]. pose proof HQ as [Qo Qt Qd Qn Qi Qs].
+    intros H Hi HQ Hok Hpk Hnd HDD. pose proof Hi as [G T X U Eq N]. pose proof HQ as [Qo Qt Qd Qn Qi Qs Qr].
     destruct it as [ns|ns|ns|mn insts|l]; simpl in H, Hok, Hpk; cbn [xit].
     - apply mbind_ok in H as (g & H1 & H). injection H as <-. simpl. rewrite !app_nil_r. eapply Qinv_chg; [exact HQ| |done].
       eapply (inputs_chg k NN _ _ Htr HNN Qn Qi ns (r_g st) g (r_ge st) P H1 Hi); [|done|done].
@@ -1080,15 +1092,16 @@ Proof.
   apply mbind_ok in H as (st & Hf & Hfin).
   set (st0 := {| r_g := g0; r_bbs := ∅; r_ge := ∅; r_io := list_to_set (m_ports m); r_ins := ∅; r_outs := ∅ |}) in *.
   assert (HQ0 : Qinv k NN [] [] (r_g st0)).
-  { assert (E1 : pinsL [] = ∅) by done. assert (E2 : netsL [] = ∅) by done. split; [constructor| | | | |]; rewrite ?E1, ?E2.
+  { assert (E1 : pinsL [] = ∅) by done. assert (E2 : netsL [] = ∅) by done. split; [constructor| | | | | |]; rewrite ?E1, ?E2.
     - intros x Hx. by apply elem_of_empty in Hx.
     - intros x Hx. apply elem_of_union in Hx as [Hx|Hx]; by apply elem_of_empty in Hx.
     - intros x Hx. by apply elem_of_empty in Hx.
     - intros x Hx. by apply elem_of_empty in Hx.
-    - intros x Hx. by apply elem_of_empty in Hx. }
+    - intros x Hx. by apply elem_of_empty in Hx.
+    - intros y j _ x p Hx. by apply elem_of_nil in Hx. }
   destruct (items_pins k NN _ Htr HNN (m_items m) st0 st [] [] Hf Hi0 HQ0 Hok Hpk Hnd ltac:(done)) as [HQ Hi].
   pose proof (items_reg k NN _ Htr HNN (m_items m) st0 st [] Hf Hok ltac:(done)) as Hreg. simpl in HQ, Hi, Hreg.
-  fold (xdrivers (k_bbs k) m) in HQ, Hi. destruct HQ as [Qo Qt Qd Qn Qi Qs].
+  fold (xdrivers (k_bbs k) m) in HQ, Hi. destruct HQ as [Qo Qt Qd Qn Qi Qs Qr].
   unfold finish in Hfin. repeat (case_bool_decide; simpl in Hfin; try discriminate).
   destruct (set_output_g (r_g st) (elements (r_outs st)) true) as [g' o] eqn:Es. destruct o; [|discriminate].
   injection Hfin as <-. simpl. split; [exact Hreg|].
